@@ -4,18 +4,23 @@ from vlib import gen
 from props import factor_common as fc
 
 PID = "C04"
-GEN = ["primality"]
-LEAN = ["Ymq.Props.C04", "Ymq.Props.C04Relations"]
+GEN = ["primality", "sched"]
+LEAN = ["Ymq.Props.C04", "Ymq.Props.C04Relations", "Ymq.Props.C04Shape"]
 AUDIT = "Ymq.Audit.C04"
 THEOREMS = ["Ymq.C04.sched_inv", "Ymq.C04.sched_done_monotone", "Ymq.C04.sched_bounded_work", "Ymq.C04.sched_progress",
-            "Ymq.C04.sched_relations_valid", "Ymq.C04.sched_no_panic"]
+            "Ymq.C04.sched_relations_valid", "Ymq.C04.sched_no_panic",
+            "Ymq.C04Shape.sched_inv_shape", "Ymq.C04Shape.shape_adds_exactly", "Ymq.C04Shape.source_shapes_ok"]
 PROFILES = ["release", "chk"]
 TIMEOUT = 180.0
 RULE = ("real runs of qs/mpqs/siqs/auto/ecm with thread pools of 1,2,3,4,8,16 threads and a seeded yield/sleep before every "
         "relation-store lock acquisition and completion check; inputs of 60-140 bits (small ones finish within a few polynomials, "
         "so workers contend on completion; larger ones use single and forced double large primes); the write-lock order of all "
         "adds is recorded; non-trivial = a run in which at least two threads added relations; distinct by request line")
-MODELLED = ["the shared-store protocol (atomic adds, Relaxed completion flag, finite work lists) in Ymq/Model/Sched.lean, generic in "
+MODELLED = ["the worker programs of siqs() and mpqs(), thread-pool and sequential branch: the order of abort polls, flag reads, adds "
+            "and completion decisions inside a work unit is read from src/siqs.rs and src/mpqs.rs by translate/sched.py on every run "
+            "(Ymq/Gen/SchedShape.lean); sched_inv_shape holds for every shape, shape_adds_exactly / source_shapes_ok are obligations on "
+            "the generated data",
+            "the shared-store protocol (atomic adds, Relaxed completion flag, finite work lists) in Ymq/Model/Sched.lean, generic in "
             "the store; the relation store itself is C11's model (Ymq/Model/Relations.lean), replayed on the recorded history"]
 UNMODELLED = ["RwLock, rayon and the memory model are trusted runtime: deadlock- and race-freedom of the primitives is not proved",
               "that a multi-threaded run is complete whenever the single-threaded one is depends on which relations are found "
